@@ -89,7 +89,14 @@ def run_jobs(modname, specs, procs=None, wall_budget=None, progress=True):
         for s, it in its:
             while True:
                 try:
-                    left = None if wall_budget is None else max(1.0, wall_budget - (time.time() - t0))
+                    left = None if wall_budget is None else wall_budget - (time.time() - t0)
+                    if left is not None and left <= 0:
+                        # budget used up: collect what is ready, do not wait for the rest
+                        if it.ready():
+                            results.append(it.get(timeout=1))
+                        else:
+                            pending.append(s)
+                        break
                     results.append(it.get(timeout=left))
                     break
                 except mp.TimeoutError:
